@@ -118,6 +118,11 @@ class Negotiated:
         )
 
         self.local_as = self.sent_open.asn
+        # RFC 6793: the 2 octet My AS field of the OPEN we sent holds AS_TRANS when our AS
+        # does not fit it, the true number is the one we put in the capability
+        sent_asn4 = sent_capa.get(Capability.CODE.FOUR_BYTES_ASN, None)
+        if self.sent_open.asn == AS_TRANS and isinstance(sent_asn4, ASN):
+            self.local_as = sent_asn4
         self.peer_as = self.received_open.asn
         if self.received_open.asn == AS_TRANS and self.asn4:
             asn4_capa = recv_capa.get(Capability.CODE.FOUR_BYTES_ASN, None)
